@@ -432,6 +432,19 @@ def conforming(rng, nfuncs=None, depth=2, recursion=True):
             out.append("sw %s, %d(sp)" % (r, 4 * i))
         for a in range(1, fn.nargs):
             out.append("add a0, a0, a%d" % a)
+        pad_lo = 4 * len(slots)
+        if frame > pad_lo and rng.random() < 0.7:
+            # scratch bytes / half-words in the padding at the TOP of the function's own frame (up to entry sp - 1)
+            for _ in range(rng.randrange(1, 4)):
+                if rng.random() < 0.5:
+                    off = rng.choice([frame - 1, frame - 2, frame - 3, frame - 4, rng.randrange(pad_lo, frame)])
+                    out.append("sb a0, %d(sp)" % off)
+                    out.append("%s t0, %d(sp)" % (rng.choice(["lb", "lbu"]), off))
+                else:
+                    off = rng.choice([frame - 2, frame - 4] + [o for o in range(pad_lo, frame, 2)])
+                    out.append("sh a0, %d(sp)" % off)
+                    out.append("%s t0, %d(sp)" % (rng.choice(["lh", "lhu"]), off))
+                out.append("add a0, a0, t0")
         body(fn, [], depth, out)
         for r in slots:
             out.append("lw %s, %d(sp)" % (r, offs[r]))
@@ -519,8 +532,12 @@ def inject(rng, lines, kind):
         while j < len(L) and (L[j].startswith("sw ") or L[j].startswith("addi sp")):
             j += 1
         frame = int(L[f + 1].split("-")[1])
-        L.insert(j, "sw a0, %d(sp)" % frame)
-        return L, "invalid-stack-offset-usage", "sw a0, %d(sp)" % frame
+        off = frame + rng.choice([0, 0, 4, 8])
+        acc = rng.choice(["sw a0, %d(sp)", "sw zero, %d(sp)", "sw x0, %d(sp)", "sb a0, %d(sp)", "sh zero, %d(sp)", "lw t6, %d(sp)", "lbu t6, %d(sp)"]) % off
+        L.insert(j, acc)
+        if acc.startswith("l"):
+            L.insert(j + 1, "add a0, a0, t6")
+        return L, "invalid-stack-offset-usage", acc
     if kind == "invalid-jump-to-function" and fn_starts:
         name = L[rng.choice(fn_starts)][:-1]
         i = main_end - 2
@@ -553,7 +570,13 @@ def random_flow(rng, n=None):
         if k < 0.2:
             lines.append("j %s" % tgt)
         elif k < 0.4:
-            lines.append("%s %s, %s, %s" % (rng.choice(["beq", "bne", "blt"]), rng.choice(TEMPS + ARGS), rng.choice(TEMPS + ["zero"]), tgt))
+            # every branch mnemonic (base and pseudo), the zero register in either operand position
+            pool = TEMPS + ARGS + ["zero", "zero", "x0"]
+            if rng.random() < 0.7:
+                lines.append("%s %s, %s, %s" % (rng.choice(["beq", "bne", "blt", "bge", "bltu", "bgeu", "bgt", "ble", "bgtu", "bleu"]),
+                                                rng.choice(pool), rng.choice(pool), tgt))
+            else:
+                lines.append("%s %s, %s" % (rng.choice(["beqz", "bnez", "bltz", "bgez", "bgtz", "blez"]), rng.choice(pool), tgt))
         elif k < 0.5:
             lines.append("%s %s" % (rng.choice(["jal", "call", "jal t0,"]), tgt))
         elif k < 0.6:
